@@ -323,3 +323,31 @@ def eval_pred(e: ast.AST, env: dict):
     if isinstance(e, (ast.Tuple, ast.List, ast.Set)):
         return tuple(eval_pred(x, env) for x in e.elts)
     raise ValueError(f'cannot evaluate {type(e).__name__}')
+
+
+LOG_CALLS = ('logger.', 'logging.', 'print', 'warnings.warn', 'log.')
+
+
+def real_body(body: list) -> list:
+    """statements of a block without logging / printing / no-op statements"""
+    out = []
+    for st in body or []:
+        if isinstance(st, ast.Pass):
+            continue
+        if isinstance(st, ast.Expr):
+            if isinstance(st.value, ast.Constant):
+                continue
+            if isinstance(st.value, ast.Call) and call_name(st.value).startswith(LOG_CALLS):
+                continue
+        out.append(st)
+    return out
+
+
+def first_stmt(body):
+    rb = real_body(body)
+    return rb[0] if rb else None
+
+
+def last_stmt(body):
+    rb = real_body(body)
+    return rb[-1] if rb else None
